@@ -6,9 +6,10 @@ from harness.core import enc_str, dec_str
 from harness import c12
 
 PROPERTY = "C13"
-READY = False
+READY = True
 STATEFUL = True
-THEOREMS = []
+THEOREMS = ["C13.parse_print", "C13.int_of_str", "C13.same_rendering_setter", "C13.same_rendering_ctor",
+            "C13.empty_noop", "C13.reachable_invariants"]
 
 
 def translate(repo):
@@ -285,6 +286,17 @@ TRUSTED = list(c12.TRUSTED)
 ASSUMPTIONS = list(c12.ASSUMPTIONS) + [
     "field names contain none of , : ; ! / < ( ) and no surrounding blanks (out of the property's domain)",
     "a print that raises ends the history (the half-updated format object is not modelled)"]
-LEVEL_TEXT = "in progress"
-LEVEL_NOTE = ""
-TECHNIQUE = "Lean 4 theorems + differential run of histories"
+LEVEL_TEXT = ("Kernel-checked on the model, for all tables with explicit expressible field names and all histories of "
+              "printing / table.fmt = <any string> / re-construction from any string (Reach): the printed format "
+              "string is accepted by the parser and reads back as the same columns (name, modifier, break-by, bounds) "
+              "and limits, with or without negotiated widths (parse_print, incl. the '(width)' suffix of the fixed "
+              "defect); applying it through the setter or through the constructor yields a table that prints exactly "
+              "the same lines, with the same fields and columns (same_rendering_setter, same_rendering_ctor - the "
+              "latter for natural-number limits); '', ';' and ';;' leave fields, columns and limits alone and the "
+              "rendering unchanged (empty_noop). Model = code rests on the differential run of histories (format "
+              "string and all rendered lines compared at every step).")
+LEVEL_NOTE = ("Trusted: Lean kernel, the translator (constants shared with C12), adapter/wire format in harness/c12.py and "
+              "harness/c13.py, sampled correspondence. Not covered by the theorems (tie and oracle only): tables built "
+              "without `fields` (col_N / dummy field), the format string read after the next printing, negative limits "
+              "(for which the constructor route is in fact not faithful - reported as an observation).")
+TECHNIQUE = "Lean 4 theorems (string round trip on List Char, reachability invariants) + differential run of histories"
